@@ -180,6 +180,30 @@ Theorem C09_position_faithful : forall (t : text) (o : N),
 Proof. exact position_faithful. Qed.
 Print Assumptions C09_position_faithful.
 
+(** The same for the COMPLETE model analysis of group bridge (PipelineAll.analyze_all: everything the handlers read; range
+    validity by its `analyze_all_ranges_valid`): with only [small_ws], definition and references on the complete symbol
+    map, and the per-file diagnostics exactly as update_diagnostics sends them - syntax errors AND index diagnostics,
+    merged per file ([q_diagnostics A f]) - are converted with file f's text, under file f's URI, to ranges that [denote]
+    them (inside the document, converting back to the analysed span). *)
+Theorem C09_pipeline_all : forall (pfuel cfuel : nat) (files : list (text * text)) (root : text) (A : PipelineAll.all_answers),
+  PipelineAll.analyze_all pfuel cfuel files root = Some A ->
+  let ws := BridgeSymbol.an_texts (PipelineAll.aa_an A) in
+  let content := content_of ws in
+  small_ws ws ->
+  (forall f p t, PipelineAll.q_goto_sm A f p = SOk (Some t) ->
+     exists lr, h_definition content (N.to_nat f) (Some (loc_of t)) = Ok (Some (N.to_nat (fr_file t), lr)) /\
+                denotes ws t lr) /\
+  (forall f p rs, PipelineAll.q_references_sm A f p = SOk (Some rs) ->
+     exists lrs, h_references content (N.to_nat f) (Some (map loc_of rs)) = Ok (Some lrs) /\
+                 Forall2 (fun r out => fst out = N.to_nat (fr_file r) /\ denotes ws r (snd out)) rs lrs) /\
+  (forall f l, PipelineAll.q_diagnostics A f = Some l ->
+     h_diagnostics content [diag_entry f l] =
+       Ok [(N.to_nat f, map (fun e => (spec_range content (N.to_nat f) (fst (fst e), snd (fst e)), snd e)) l)] /\
+     forall e, In e l ->
+       denotes ws (mkFR f (fst (fst e)) (snd (fst e))) (spec_range content (N.to_nat f) (fst (fst e), snd (fst e)))).
+Proof. exact pipeline_all. Qed.
+Print Assumptions C09_pipeline_all.
+
 (** The remaining handlers from validity in C17's own vocabulary ([range_valid ws r = true] is what the C17 theorems
     conclude), so that they compose with a C17 statement about the corresponding query of the complete model analysis
     (PipelineAll.q_links / q_inlay / q_outline of group bridge) as soon as one exists: under [small_ws] only, document
